@@ -3,7 +3,7 @@
    explicit Panic / cost semantics), C04AsmModel.v (file assembly, File.Encode/EncodeSW, File.Info over
    top-level box shapes; g = true is the repaired text, g = false the pinned text). *)
 From V.lib Require Import Base.
-From V.c04 Require Import C04Model C04AsmModel C04ReaderProofs C04AsmProofs.
+From V.c04 Require Import C04Model C04AsmModel C04ReaderProofs C04ContainerProofs C04AsmProofs.
 
 (* ---- (a) bits.FixedSliceReader: every method, every reachable state, under the caller guards ---- *)
 Theorem C04_reader_safe : forall s o, rinv s = true -> rguard s o = true ->
@@ -29,6 +29,34 @@ Theorem C04_reader_neg_refuted :
   (exists s', rstep s3 (RSetPos (-1)) = Ok (VUnit, s') /\ rinv s' = false /\ rstep s' RU8 = Panic).
 Proof. exact reader_neg_refuted. Qed.
 Print Assumptions C04_reader_neg_refuted.
+
+(* ---- (b) box headers, DecodeBox / DecodeBoxSR and both container child loops, every byte string ---- *)
+(* both header decoders never panic on any state of their byte source; the io.Reader one allocates <= 16 *)
+Theorem C04_header_total :
+  (forall s, IInv s -> exists r s', decode_header s = (r, s') /\ np r /\ T (icost s') <= T (icost s) + 16)%Z /\
+  (forall s, Inv (sr s) -> exists r s', decode_header_sr s = (r, s') /\ np r /\ Inv (sr s') /\ scost s' = scost s).
+Proof. exact header_total. Qed.
+Print Assumptions C04_header_total.
+
+(* SliceReader path: for every leaf decoder satisfying the contract and every byte string (Go slice lengths
+   are < 2^63): a tree or an error, never Panic, never out of fuel len+1, ticks + alloc <= 2*len + 2 *)
+Theorem C04_container_total_sr : forall ld, leaf_ok ld -> forall bs, small bs = true ->
+  exists r s', box_sr ld bs = (r, s') /\ (r = Err \/ exists t, r = Ok t) /\
+               (tot (scost s') <= 2 * lenN bs + 2)%N.
+Proof. exact container_total_sr. Qed.
+Print Assumptions C04_container_total_sr.
+
+(* io.Reader path: a tree, io.EOF or an error; ticks + alloc <= 6*len + 18 *)
+Theorem C04_container_total_r : forall ld, leaf_ok ld -> forall bs, small bs = true ->
+  exists r s', box_r ld bs = (r, s') /\ (r = Err \/ r = Ok BEof \/ exists t, r = Ok (BBox t)) /\
+               (tot (icost s') <= 6 * lenN bs + 18)%N.
+Proof. exact container_total_r. Qed.
+Print Assumptions C04_container_total_r.
+
+(* the contract is satisfiable: the leaves used by the correspondence (mdat, free/skip, unknown boxes) *)
+Theorem C04_std_leaves_ok : leaf_ok std_leaves.
+Proof. exact std_leaves_ok. Qed.
+Print Assumptions C04_std_leaves_ok.
 
 (* ---- (c) file assembly over shapes, all decode options, then Info and both encode modes ---- *)
 Theorem C04_assembly_total : forall (o : opts) (boxes : list (topshape * N)),
@@ -116,3 +144,15 @@ Example ex_assembly :
   | _ => False
   end.
 Proof. vm_compute. repeat split; reflexivity. Qed.
+
+(* moof{traf{}, free} decodes to the same tree on both paths (std leaves), within the cost bounds *)
+Example ex_box_bytes : list N :=
+  [0;0;0;24;109;111;111;102; 0;0;0;8;116;114;97;102; 0;0;0;8;102;114;101;101]%N.
+Example ex_small : small ex_box_bytes = true.
+Proof. reflexivity. Qed.
+Example ex_box_sr : fst (box_sr std_leaves ex_box_bytes)
+  = Ok (Node name_moof [Node name_traf []; Leaf name_free 8]).
+Proof. vm_compute. reflexivity. Qed.
+Example ex_box_r : fst (box_r std_leaves ex_box_bytes)
+  = Ok (BBox (Node name_moof [Node name_traf []; Leaf name_free 8])).
+Proof. vm_compute. reflexivity. Qed.
